@@ -126,7 +126,9 @@ def mode_fn(cx, name, spec):
     if spec['tail']:
         # the tail loop: an index loop over 0..len - 16*(len/16), or the left-over of data.chunks_exact(16) zipped with the
         # key-stream block (zip stops with the shorter side, the left-over)
-        tl = [b for b in FR.calls_of(fn, 'next') if FR.arg_canon(fn, P, cn, b, 0) == 'into_iter(Range::Range{0, SubWithOverflow(len($data), MulWithOverflow(Div(len($data), 16), 16).0).0})'
+        REM = 'remainder(chunks_exact($data, 16))'         # = data[(len/16)*16 ..], len % 16 bytes (std contract of ChunksExact::remainder)
+        tl = [b for b in FR.calls_of(fn, 'next') if FR.arg_canon(fn, P, cn, b, 0) in ('into_iter(Range::Range{0, SubWithOverflow(len($data), MulWithOverflow(Div(len($data), 16), 16).0).0})',
+                                                                                      'into_iter(Range::Range{0, len(%s)})' % REM)
               or FR.arg_canon(fn, P, cn, b, 0).startswith('into_iter(zip(iter(remainder(chunks_exact($data, 16))), iter(try(encrypt($self.cipher, ')]
         ok = len(tl) == 1
         tout = []
@@ -140,6 +142,12 @@ def mode_fn(cx, name, spec):
             # the key-stream block indexed as a Vec (`index(E(..), i)`) or through a slice of it (`E(..)[i]`)
             ok = len(tout) == 1 and ((tout[0].startswith(head + 'index(try(encrypt($self.cipher, ') and tout[0].endswith(', %s))' % I))
                                      or (tout[0].startswith(head + 'try(encrypt($self.cipher, ') and tout[0].endswith('[%s])' % I)))
+            if not ok and len(tout) == 1:
+                # the same bytes addressed through the left-over slice of data.chunks_exact(16)
+                I2 = 'each(Range::Range{0, len(%s)})' % REM
+                head2 = 'BitXor(%s[%s], ' % (REM, I2)
+                ok = (tout[0].startswith(head2 + 'index(try(encrypt($self.cipher, ') and tout[0].endswith(', %s))' % I2)) or \
+                    (tout[0].startswith(head2 + 'try(encrypt($self.cipher, ') and tout[0].endswith('[%s])' % I2))
         cx.add('I-MODES', name + '/tail', ok, 'the final partial block is data[blk*16+i] xor E(register)[i] for i < len mod 16 (output length = input length)', fn.loc(), {'tail': [FR.short(x, 200) for x in tout]})
 
 
